@@ -3,7 +3,7 @@ from pyvc.verify import Post, Case, Equiv, NativeFacts
 from contracts import common, C08
 
 PROPERTY = 'C05'
-REF_MODULES = ['ref_err', 'ref_core']
+REF_MODULES = ['ref_err', 'ref_core', 'ref_extra']
 
 
 def config(cfg):
@@ -40,6 +40,8 @@ def contracts():
                                          ('root_error', 'ref'), ('last_branch', 'bool'), ('last_line_error', 'bool')],
                                    locals=['scope', 'spec', 'target', 'error', 'branches']),
                            2: dict(vars=[('recurse', 'ref')])}))
+    from contracts import extra
+    cs += common.shared(extra, ['core.GlomError.__str__', 'core.GlomError._finalize', 'core.PathAccessError.get_message'])
     return cs
 
 
